@@ -395,6 +395,14 @@ def gen_std_modules():
     avbc_embedded = not avbc_fallback and "for_source_file" not in avbc
     ini = strip_comments(rd("driver/src/modules/loader/init.rs"))
     source_project = bool(re.search(r"Manifest::(?:find_)?for_source_file\(\s*entry_file\s*\)", fn_body(ini, "new", "loader/init.rs")))
+    # `needs m.symbol` is rewritten into a selective import of `symbol` from m: the rewritten statement must carry the
+    # MODULE path (actual_path), since the policy is looked up from needs.path
+    ld = strip_comments(rd("driver/src/modules/loader/load.rs"))
+    lm = fn_body(ld, "load_module", "loader/load.rs")
+    en = re.search(r"let\s+effective_needs\s*=\s*if\s+let\s+Some\([a-z_]+\)\s*=\s*&?symbol\s*\{\s*NeedsStmt\s*\{(.*?)\}\s*\}\s*else", lm, flags=re.S)
+    if not en:
+        raise ExtractError("loader/load.rs::load_module: the rewrite of `needs m.symbol` is no longer recognisable")
+    sym_path_ok = bool(re.search(r"\bpath\s*:\s*actual_path(\.clone\(\))?\s*,", en.group(1))) and ".." not in en.group(1).split("path")[0]
     # manifest discovery: the per-file manifest is `<file name>.toml` (whatever the extension of the entry file), then aelys.toml
     man = strip_comments(rd("modules/src/manifest.rs"))
     fsf = closure_body(man, "for_source_file")
@@ -459,6 +467,8 @@ def gen_std_modules():
     out.append(f"Definition dynamic_policy_lookup_keys : list string := {coq_list(q(x) for x in keys_dyn)}.\n")
     out.append(f"Definition embedded_policy_lookup_keys : list string := {coq_list(q(x) for x in keys_emb)}.\n")
     out.append(f"Definition dynamic_policy_key_is_last_segment : bool := {b(last_seg)}.\n")
+    out.append("(* `needs m.symbol`: the rewritten selective import carries the module path m *)\n")
+    out.append(f"Definition symbol_import_keeps_module_path : bool := {b(sym_path_ok)}.\n")
     out.append("(* repairs of round 4 (false on a tree that does not have them yet) *)\n")
     out.append(f"Definition policy_lookup_tries_dotted_path : bool := {b(dotted_first)}.\n")
     out.append(f"Definition unparsable_manifest_is_an_error : bool := {b(unparsable_err)}.\n")
